@@ -1,6 +1,6 @@
 """C12 — The daemon wakes itself for all time-driven work and never spins."""
 from .lib import *
-from .f6 import Pairing, push_sites, _unavoidable, _check_call_site, is_timer_push
+from .f6 import Pairing, push_sites, _unavoidable, _check_call_site, is_timer_push, closure_drains
 from .f10 import outer_loop_head
 
 EXPLANATION = (
@@ -167,6 +167,7 @@ def _check_local_carriers(ctx, P):
             for (db, kind, e) in push_sites(P, f):
                 if kind == "timers" and any(x == nw for x in walk(e)):
                     drains.append(db)
+            drains += closure_drains(P, f, lambda e, nw=nw: any(x == nw for x in walk(e)))
             returned = False
             for rb in f.exits():
                 re_ = tr.local(0, endpos(f, rb))
@@ -277,6 +278,8 @@ def _check_cache_times(ctx, P):
         for (db, kind, e) in push_sites(P, g):
             if kind == "timers" and news and any(x == news[0] for x in walk(e)):
                 drains.append(db)
+        if news:
+            drains += closure_drains(P, g, lambda e, nw=news[0]: any(x == nw for x in walk(e)))
         loops = g.loops()
         heads = set()
         for db in drains:
